@@ -41,15 +41,21 @@ pub fn op_string<R: Reader<Offset = usize>>(ctx: &Ctx<'_>, op: &Operation<R>) ->
     }
 }
 
-pub fn location_string<R: Reader<Offset = usize>>(ctx: &Ctx<'_>, l: &Location<R>) -> String {
+/// Canonical text of a location (generic values modulo the address mask), shared with
+/// the reference model.
+pub fn location_string<R: Reader<Offset = usize>>(ctx: &Ctx<'_>, l: &Location<R>, mask: u64) -> String {
     match l {
-        Location::Bytes { value } => format!("Bytes {}", reader_hex(ctx, value)),
-        other => format!("{:?}", other),
+        Location::Empty => "Empty".into(),
+        Location::Register { register } => format!("Register({})", register.0),
+        Location::Address { address } => format!("Address({:#x})", address),
+        Location::Value { value } => format!("Value({})", crate::model::fmt_value(value, mask)),
+        Location::Bytes { value } => format!("Bytes({})", reader_hex(ctx, value)),
+        Location::ImplicitPointer { value, byte_offset } => format!("ImplicitPointer({},{})", value.0, byte_offset),
     }
 }
 
-pub fn piece_string<R: Reader<Offset = usize>>(ctx: &Ctx<'_>, p: &Piece<R>) -> String {
-    format!("piece size={:?} off={:?} loc={}", p.size_in_bits, p.bit_offset, location_string(ctx, &p.location))
+pub fn piece_string<R: Reader<Offset = usize>>(ctx: &Ctx<'_>, p: &Piece<R>, mask: u64) -> String {
+    format!("piece size={:?} off={:?} loc={}", p.size_in_bits, p.bit_offset, location_string(ctx, &p.location, mask))
 }
 
 pub fn die_ref_key(r: &DieReference<usize>) -> u64 {
@@ -199,9 +205,13 @@ where
         };
     }
     // Complete: results are legal to read now
+    let mask = world.addr_mask();
     let vr = eval.value_result();
-    trace.push(format!("value_result {:?}", vr));
-    let pieces: Vec<String> = eval.as_result().iter().map(|p| piece_string(ctx, p)).collect();
+    trace.push(match vr {
+        Some(v) => format!("value_result Some({})", crate::model::fmt_value(&v, mask)),
+        None => "value_result None".into(),
+    });
+    let pieces: Vec<String> = eval.as_result().iter().map(|p| piece_string(ctx, p, mask)).collect();
     for p in pieces {
         trace.push(p);
     }
